@@ -585,6 +585,30 @@ impl World {
     ) -> Outcome {
         self.exec_full(sender, c, msg, funds, None)
     }
+    /// execute a message given as JSON (serialised with serde_json, not serde-json-wasm)
+    pub fn exec_json(&mut self, sender: &str, c: &Addr, msg: &serde_json::Value) -> Outcome {
+        self.tap.reset(None);
+        let snap = self.store.0.borrow().clone();
+        let cm = cosmwasm_std::CosmosMsg::Wasm(cosmwasm_std::WasmMsg::Execute {
+            contract_addr: c.to_string(),
+            msg: cosmwasm_std::Binary(serde_json::to_vec(msg).unwrap()),
+            funds: vec![],
+        });
+        IN_CONTRACT.with(|c| c.set(true));
+        let r = std::panic::catch_unwind(std::panic::AssertUnwindSafe(|| {
+            self.app.execute(Addr::unchecked(sender), cm)
+        }));
+        IN_CONTRACT.with(|c| c.set(false));
+        let n = self.tap.counter.get();
+        match r {
+            Ok(Ok(_)) => Outcome { ok: true, panicked: false, err: String::new(), dispatches: n },
+            Ok(Err(e)) => Outcome { ok: false, panicked: false, err: format!("{:#}", e).chars().take(400).collect(), dispatches: n },
+            Err(_) => {
+                *self.store.0.borrow_mut() = snap;
+                Outcome { ok: false, panicked: true, err: "PANIC".into(), dispatches: n }
+            }
+        }
+    }
     pub fn engine_exec(&mut self, sender: &str, msg: &EngineExec, funds: u128) -> Outcome {
         let e = self.engine.clone();
         self.exec_full(sender, &e, msg, funds, None)
